@@ -141,14 +141,35 @@ fn is_submultiset(a: &[It], b: &[It]) -> bool {
     true
 }
 
+/// Is everything upstream of `e` a plain chain of map/filter/identity/inspect from a source?
+fn trivial_chain(p: &Program, mut e: Edge) -> bool {
+    for _ in 0..64 {
+        let nd = &p.nodes[e.0];
+        match nd.op {
+            Op::Source(_) => return true,
+            Op::Map(_) | Op::Identity | Op::Filter(_) | Op::Inspect(_) => e = nd.ins[0],
+            _ => return false,
+        }
+    }
+    false
+}
+
 /// The nearest operator upstream of `e` that is not a trivial pass-through: the site named in a
-/// violation signature.
+/// violation signature. A union with exactly one non-trivial input is looked through.
 fn site_of(p: &Program, mut e: Edge) -> String {
     for _ in 0..64 {
         let nd = &p.nodes[e.0];
         match nd.op {
             Op::Map(_) | Op::Identity | Op::Filter(_) | Op::Inspect(_) | Op::Source(_) if !nd.ins.is_empty() => {
                 e = nd.ins[0]
+            }
+            Op::Union => {
+                let nontrivial: Vec<Edge> = nd.ins.iter().copied().filter(|&i| !trivial_chain(p, i)).collect();
+                if nontrivial.len() == 1 {
+                    e = nontrivial[0];
+                } else {
+                    return pgen::cover_key(&nd.op);
+                }
             }
             _ => return pgen::cover_key(&nd.op),
         }
@@ -176,8 +197,10 @@ struct Diff {
 }
 
 /// Compare the per-tick sink outputs: as sequences where the documented order is fixed,
-/// otherwise as multisets. Returns the first difference (lowest sink in evaluation order).
-fn compare(p: &Program, rf: &RefOut, tr: &Trace) -> Option<Diff> {
+/// otherwise as multisets. Returns, for every deviating sink (in evaluation order), its first
+/// deviating tick.
+fn compare(p: &Program, rf: &RefOut, tr: &Trace) -> Vec<Diff> {
+    let mut diffs = vec![];
     let ord = p.ordered();
     let sn = sink_nodes(p);
     let nt = rf.total_ticks;
@@ -209,10 +232,11 @@ fn compare(p: &Program, rf: &RefOut, tr: &Trace) -> Option<Diff> {
             } else {
                 "different-items"
             };
-            return Some(Diff { sink: k, tick: t, kind, real: real[t].clone(), reference: refr[t].clone() });
+            diffs.push(Diff { sink: k, tick: t, kind, real: real[t].clone(), reference: refr[t].clone() });
+            break;
         }
     }
-    None
+    diffs
 }
 
 fn panic_class(msg: &str) -> String {
@@ -298,7 +322,7 @@ fn judge(cx: &Ctx, rep: &mut Reporter, p: &Program, f: ProgFn, steps: &[Step], d
 
     // --- reference equality of every sink
     rep.eval();
-    if let Some(d) = compare(p, &rf, &tr) {
+    for d in compare(p, &rf, &tr) {
         let node = sink_nodes(p)[d.sink].unwrap();
         let site = site_of(p, p.nodes[node].ins[0]);
         rep.violation(
